@@ -5,6 +5,7 @@ import time
 
 VERIF = os.path.dirname(os.path.dirname(os.path.abspath(__file__)))
 KNOWN = os.path.join(VERIF, 'known_findings.json')
+OUT = os.environ.get('CJSA_OUT', VERIF)
 
 
 class Ob:
@@ -110,7 +111,7 @@ def finish(prop, tier, results, t0, explanation, trusted_base, assumptions, chec
         else:
             viol.append(o)
 
-    rdir = os.path.join(VERIF, 'reports', prop)
+    rdir = os.path.join(OUT, 'reports', prop)
     os.makedirs(rdir, exist_ok=True)
     for old in os.listdir(rdir):
         if old.endswith('.json'):
@@ -172,14 +173,17 @@ def finish(prop, tier, results, t0, explanation, trusted_base, assumptions, chec
         'wall_s': round(time.time() - t0, 3),
         'violations': len(viol),
     }
-    os.makedirs(os.path.join(VERIF, 'evidence'), exist_ok=True)
-    with open(os.path.join(VERIF, 'evidence', prop + '.json'), 'w') as fh:
+    os.makedirs(os.path.join(OUT, 'evidence'), exist_ok=True)
+    with open(os.path.join(OUT, 'evidence', prop + '.json'), 'w') as fh:
         json.dump(ev, fh, indent=1)
 
     if broken:
         for (r, w, c, f) in broken:
             print('ANALYSIS-BROKEN property=%s rule=%s: %s: %d instances, floor %d' % (prop, r, w, c, f))
-        return 2
+        # a violated obligation is a fact about a construct that exists; the floors only guard against
+        # vacuous passes, so they decide the exit code only when nothing was reported
+        if not viol:
+            return 2
     print('%s [%s]: %d obligations over %d distinct constructs, %d discharged, %d violations, %d known findings (%.2fs)'
           % (prop, tier, len(obs), distinct, sum(1 for o in obs if o.ok), len(viol), len(known_hits),
              time.time() - t0))
